@@ -1531,8 +1531,8 @@ def run(ck):
     procs = ProcessPoolExecutor(max_workers=7, mp_context=multiprocessing.get_context("spawn"))
     init = {"pid": ck.pid, "tier": ck.tier, "seed": ck.seed, "tmp": ck.tmp, "known": ck.known_keys()}
     tf = procs.submit(task, "traces", init, None, {"dev": dev})
-    order = ["pr", "prc", "sd", "fc", "lzwF", "lzwW", "lzwWc", "lzwWF", "lzwWFc", "sdx", "rl3", "rl2", "af", "afc", "afr",
-             "prr", "lzwr", "fl", "so", "fc3", "fcw"]
+    order = ["fc", "fc3", "pr", "prc", "sd", "lzwF", "lzwW", "lzwWc", "lzwWF", "lzwWFc", "sdx", "rl3", "rl2", "af", "afc", "afr",
+             "prr", "lzwr", "fl", "so", "fcw"]
     futs = {k: pool.submit(run_job, ck, jobs[k]) for k in order if k in jobs}
     cov = {"sd": ["AKeyword", "AResolveLength", "ASeekKeyword", "ANlFill", "ANlSearch", "ANlAfterCR", "AReadPayload",
                   "AScanLine", "APushStream"],
